@@ -34,7 +34,7 @@ ClausesOf(e) ==
              ELSE (IF CompleteExamined(e) /\ FOMatchable(e.ps, e.ts, e.inst0) THEN {"Complete"} ELSE {}))
 NontrivialOf(e) == InputsOK(e) /\ (e.outcome = "success" \/ CompleteExamined(e))
 DivergesOf(e) == InputsOK(e) /\ e.outcome # "success"
-                 /\ (e.outcome # "MatchException" \/ (e.kind \in {"pos", "raw", "etac", "etax"} /\ e.seed \in {"empty", "full", "extra", "ty", "sv1"}))
+                 /\ (e.outcome # "MatchException" \/ (e.kind \in {"pos", "raw", "etac", "etax", "self"} /\ e.seed \in {"empty", "full", "extra", "ty", "sv1", "args"}))
 TNext == LET e == Trace[l] IN TStep(e.tid, ClausesOf(e), NontrivialOf(e), DivergesOf(e))
 TSpec == TInit /\ [][TNext]_l
 =============================================================================
